@@ -25,9 +25,9 @@ HARNESSES = [
          must_have=["C01.frag.location"],
          cases=[dict(id="fb%d" % fb, defines={"HAVE_FB": fb, "HAVE_INODE": 1, "BS": 4096}, tier="quick")
                 for fb in (0, 1)]),
-    dict(name="bp_append", file="bp_append.c", label="proved", timeout=3,
+    dict(name="bp_append", file="bp_append.c", label="proved", timeout=1800,
          loops=["sqfs_block_processor_append", "get_new_block"], loop_tables=["C01_w4"],
          fp={"submit": "stub_submit", "get_status": "stub_get_status"},
-         cases=[dict(id="cur%d_bs4096" % c, defines={"HAVE_CUR": c, "BS": 4096}, tier="quick")
+         cases=[dict(id="cur%d_bs4096" % c, defines={"HAVE_CUR": c, "BS_LOG": 12}, tier="quick")
                 for c in (0, 1)]),
 ]
